@@ -229,5 +229,15 @@ func genSeq(r *rng, L, maxF, depth int) gts.Sequence {
 	for i := 0; i < n; i++ {
 		ff = ff.Insert(genFeature(r, L, depth))
 	}
+	// now and then the table holds the same feature twice (legal, e.g. two annotation passes);
+	// the copy is placed by hand next to the original so that no library routine is involved
+	if len(ff) > 0 && r.intn(6) == 0 {
+		k := r.intn(len(ff))
+		gg := make(gts.FeatureSlice, 0, len(ff)+1)
+		gg = append(gg, ff[:k+1]...)
+		gg = append(gg, gts.Feature{Key: ff[k].Key, Loc: ff[k].Loc, Props: ff[k].Props.Clone()})
+		gg = append(gg, ff[k+1:]...)
+		ff = gg
+	}
 	return gts.New(nil, ff, genBytes(r, L))
 }
